@@ -206,13 +206,21 @@ def _mutations(data):
         for label, val in (("every CVAL = 0x7FFFFFFF", 0x7FFFFFFF), ("every CVAL = -1", -1), ("every CVAL = 70000", 70000)):
             edited = [(cid, struct.pack("<i", val) if i in cv else payload) for i, (cid, payload) in enumerate(chunks)]
             yield label, b"".join(F.frame(bytes(cid), bytes(payload)) for cid, payload in edited)
+    # note bytes: every PDTA payload filled with a byte pattern; option bytes: every short module chunk
+    # payload (CHDT of at most 8 bytes, which is where option records live) filled likewise
+    for label, cid_sel, fill in (("every PDTA byte = 0xFF", b"PDTA", 0xFF), ("every PDTA byte = 0x7F", b"PDTA", 0x7F), ("every PDTA byte = 0x81", b"PDTA", 0x81),
+                                 ("every short CHDT byte = 0xFF", b"CHDT", 0xFF), ("every short CHDT byte = 0x01", b"CHDT", 0x01)):
+        hit = [i for i, c in enumerate(chunks) if bytes(c[0]) == cid_sel and len(c[1]) > 0 and (cid_sel == b"PDTA" or len(c[1]) <= 8)]
+        if hit:
+            edited = [(cid, bytes([fill]) * len(payload) if i in hit else payload) for i, (cid, payload) in enumerate(chunks)]
+            yield label, b"".join(F.frame(bytes(cid), bytes(payload)) for cid, payload in edited)
 
 
 @contract(
     "fixtures_resave_stable", ["C05"], kind="bounded", cases=_fixture_cases,
     targets=["rv.readers.reader:read_sunvox_file", "rv.container:Container.write_to", "rv.modules.sampler:Sampler.specialized_iff_chunks",
              "rv.modules.sampler:Sampler.load_chunk", "rv.modules.module:Module.load_options"],
-    bound="all shipped fixture files, as shipped and with every 4-byte CVAL payload replaced by 0x7FFFFFFF, -1 and 70000; three load/save cycles in ONE process (state kept by classes would accumulate), natively",
+    bound="all shipped fixture files, as shipped, with every 4-byte CVAL payload replaced by 0x7FFFFFFF, -1 and 70000, with every note byte (PDTA) and every option-record byte (CHDT of at most 8 bytes) overwritten by fixed byte patterns; three load/save cycles in ONE process (state kept by classes would accumulate), natively",
 )
 def fixtures_resave_stable(H, path):
     """X = fixture bytes; Y = save(load(X)); loading Y and saving again yields exactly Y, also on the
@@ -242,3 +250,84 @@ def fixtures_resave_stable(H, path):
         f = io.BytesIO()
         obj1.write_to(f)
         H.check("saving_the_same_object_again_gives_the_same_bytes", f.getvalue() == y, witness=dict(w, len_first=len(y), len_again=len(f.getvalue())))
+
+
+def _link_mutation_cases(tier):
+    return [("fan_out_with_freed_slot", "a"), ("fan_in_cycle", "b")] + [(n, p) for n, p in _fixture_cases(tier) if n.endswith(".sunvox")]
+
+
+def _generated_link_project(kind):
+    import io
+
+    import rv.api  # noqa
+    from rv.modules.amplifier import Amplifier
+    from rv.modules.generator import Generator
+    from rv.project import Project
+
+    p = Project()
+    s = p.new_module(Generator)
+    a, b, c = (p.new_module(Amplifier) for _ in range(3))
+    if kind == "a":
+        s >> a
+        s >> b
+        s >> c
+        a >> p.output
+        b >> p.output
+        c >> b
+        s >> ~b
+    else:
+        s >> c
+        s >> a
+        a >> b
+        b >> a
+        c >> p.output
+        a >> p.output
+    f = io.BytesIO()
+    p.write_to(f)
+    return f.getvalue()
+
+
+@contract(
+    "link_bytes_mutated_resave_stable", ["C05"], kind="bounded", cases=_link_mutation_cases,
+    targets=["rv.readers.module:ModuleReader.process_SLNK", "rv.readers.module:ModuleReader.process_SLnK",
+             "rv.readers.sunvox:SunVoxReader.process_end_of_file", "rv.project:Project.chunks"],
+    bound="two generated projects that carry explicit slot chunks and every .sunvox fixture; each entry of each SLNK / SLnK chunk replaced in turn by "
+          "0, 1, 2, -1, -2, (number of modules - 1), (number of modules) [small values only: a huge slot number makes the loader allocate that many "
+          "entries]; files the loader rejects are outside the property; three load/save cycles, natively",
+)
+def link_bytes_mutated_resave_stable(H, src):
+    """Fixtures / generated files whose link bytes are mutated: when X still loads, Y = save(load(X))
+    is a fix-point of load/save (second and third cycle give Y again)."""
+    import struct
+
+    from spec import format as F
+
+    data = _generated_link_project(src) if src in ("a", "b") else open(src, "rb").read()
+    chunks = [(bytes(c), bytes(d)) for c, d in F.parse_stream(data)]
+    nmods = sum(1 for c, _d in chunks if c == b"SEND")
+    links = [i for i, (c, d) in enumerate(chunks) if c in (b"SLNK", b"SLnK") and d]
+    for k, i in enumerate(links):
+        n = len(chunks[i][1]) // 4
+        vals = list(struct.unpack("<%di" % n, chunks[i][1]))
+        for e in range(n):
+            for v in sorted({0, 1, 2, -1, -2, nmods - 1, nmods}):
+                if v == vals[e]:
+                    continue
+                nv = list(vals)
+                nv[e] = v
+                edited = chunks[:i] + [(chunks[i][0], struct.pack("<%di" % n, *nv))] + chunks[i + 1:]
+                x = b"".join(F.frame(c, d) for c, d in edited)
+                what = f"{chunks[i][0].decode()}#{k}[{e}]:{vals[e]}->{v}"
+                try:
+                    _o, y = _cycle(x)
+                except Exception:  # noqa - X is not loadable (or not savable): outside the property
+                    continue
+                try:
+                    _o, z = _cycle(y)
+                    _o, z2 = _cycle(z)
+                    ok = z == y and z2 == y
+                    w = {"mutation": what, "len_y": len(y), "len_z": len(z), "len_z2": len(z2)}
+                except Exception as ex:  # noqa
+                    ok = False
+                    w = {"mutation": what, "error": repr(ex)}
+                H.check(f"resave_is_fixpoint[{what}]", ok, witness=w)
